@@ -4,7 +4,7 @@
 # occupied (evalmut / regress_seeded apply seeded changes to /repo). Never touches /repo, /verif/evidence or /verif/replays.
 set -u
 export GOFLAGS=-mod=mod GOPROXY=off GOSUMDB=off GOTOOLCHAIN=local
-D=/var/tmp/vdev
+D=${VDEV:-/var/tmp/vdev}
 patch=""
 if [ "${1:-}" = "-p" ]; then patch=$(readlink -f "$2"); shift 2; fi
 ID=$1; TIER=${2:-quick}
